@@ -16,6 +16,11 @@ Definition c_StructEnd := 11.
 Definition c_ZeroTag := 12.
 Definition c_SimpleList := 13.
 Definition c_maxSkipDepth := 512.
+Definition c_TUPVERSION := (3)%Z.
+Definition c_PackageLess := 0.
+Definition c_PackageFull := 1.
+Definition c_PackageError := 2.
+Definition c_maxPackageLength := 10485760.
 Definition c_maxInt32 := 2147483647.
 Definition c_minStaticWeightLimit := 10.
 Definition c_maxStaticWeightLimit := 100.
